@@ -17,18 +17,9 @@ From Coq Require Import String.
 From PV Require Import Base.Bytes Base.Outcome Base.Prim Base.Enum Base.PyData Model.C07Kinds.
 From Coq Require Import ZArith List Bool.
 Import ListNotations.
+Open Scope string_scope.
+Open Scope list_scope.
 Open Scope Z_scope.
-
-(* ------------------------------------------------------------------ values *)
-Inductive fval : Type :=
-| FInt (z : Z)
-| FBytes (b : list Z)      (* a Python list of byte values (loc_expr) *)
-| FStr (s : string)
-| FBool (b : bool)
-| FInts (l : list Z).      (* a Python list of ints (header['offsets']) *)
-
-Definition container := list (string * fval).       (* construct Container, insertion order *)
-Definition tup := (string * list fval)%type.        (* namedtuple: class name, positional values *)
 
 Fixpoint assoc {A} (l : list (string * A)) (k : string) : option A :=
   match l with
